@@ -7,7 +7,7 @@
 set -u
 V=/verif
 rc=0
-for t in ${TRANSFORMS:-none alpha_rename_reverse_methods return_temps_flip_if rename_private_params flip_comparisons_swap_products}; do
+for t in ${TRANSFORMS:-none alpha_rename_reverse_methods return_temps_flip_if rename_private_params flip_comparisons_swap_products positional_to_keyword_args}; do
   S=$(mktemp -d /tmp/cv_tr_XXXX)
   rsync -a --exclude .git /repo/ "$S"/
   if [ "$t" = none ]; then
